@@ -21,6 +21,9 @@ open BeyondVerif.R BeyondVerif.R.KN BeyondVerif.NumReal BeyondVerif.KNIter Beyon
 
 /-! ## One object, many calls -/
 
+/-- the field an object integrates depends on its `bodies` only -/
+theorem field_def (c : Cfg) : c.field = fun t y => accel (c.bodies.map (bodyAt t)) y := rfl
+
 theorem runOps_length (c : Cfg) (ops : List Op) : (runOps c ops).length = ops.length := by
   induction ops generalizing c with
   | nil => rfl
@@ -66,16 +69,16 @@ bodies -/
 theorem current_method_selects_step (c : Cfg) (ops : List Op) (m : String) (tb : Tableau) (hm : butcher m = some tb)
     (y : List ℝ) (h : ℝ) :
     (runOps c (ops ++ [.setMethod m, .makeStep y h])).getLast? =
-      some (.stepped (makeStep (fun _ y => accel (c.after ops).bodies y) tb (c.after ops).step (c.after ops).tol 0 y maxIter h)) := by
+      some (.stepped (makeStep (c.after ops).field tb (c.after ops).step (c.after ops).tol 0 y maxIter h)) := by
   rw [runOps_append]
-  simp [runOps, Cfg.out, Cfg.next, hm]
+  simp [runOps, Cfg.out, Cfg.next, hm, field_def]
 
 /-- … and for a fixed-step method it is exactly one Runge–Kutta step of that tableau (Euler then RK4 on one object: the second
 call is an RK4 step) -/
 theorem current_method_selects_fixed_step (c : Cfg) (ops : List Op) (m : String) (tb : Tableau) (hm : butcher m = some tb)
     (hb : tb.bstar = none) (y : List ℝ) (h : ℝ) :
     (runOps c (ops ++ [.setMethod m, .makeStep y h])).getLast? =
-      some (.stepped (some (h, rkOnce (fun _ y => accel (c.after ops).bodies y) tb 0 y h))) := by
+      some (.stepped (some (h, rkOnce (c.after ops).field tb 0 y h))) := by
   rw [current_method_selects_step c ops m tb hm]
   simp [maxIter, makeStep, hb, rkOnce]
 
@@ -100,14 +103,15 @@ embedded error estimate within `t`, whatever the tolerance was when the object w
 theorem current_tol_bounds_accepted_step (c : Cfg) (ops : List Op) (t : ℝ) (tb : Tableau) (bs : List ℝ)
     (hm : butcher (c.after ops).method = some tb) (hb : tb.bstar = some bs) (y : List ℝ) (h h' : ℝ) (y' : List ℝ)
     (hr : (runOps c (ops ++ [.setTol t, .makeStep y h])).getLast? = some (.stepped (some (h', y')))) :
-    errEst tb bs h' (rkKs (fun _ y => accel (c.after ops).bodies y) tb 0 y h') ≤ t := by
+    errEst tb bs h' (rkKs (c.after ops).field tb 0 y h') ≤ t := by
   rw [runOps_append] at hr
   simp [runOps, Cfg.out, Cfg.next, hm] at hr
   exact accepts_within_tol' _ tb bs hb _ t 0 y maxIter h h' y' hr
 
-/-- **`copy()` keeps every setting** of an object whose method is one of the class's integrators: the propagator attached to
-each returned orbit integrates exactly like the one it was copied from -/
-theorem copy_keeps_settings (c : Cfg) (hm : c.method ∈ butcherNames) : c.next .copy = c := by
+/-- **`copy()` keeps every setting** (method, step bound, tolerance, bodies, frame) of an object whose method is one of the
+class's integrators, and starts UNBOUND (`copy().orbit is None`): the propagator attached to each returned orbit integrates exactly
+like the one it was copied from, from whatever orbit it is bound to next -/
+theorem copy_keeps_settings (c : Cfg) (hm : c.method ∈ butcherNames) : c.next .copy = { c with bound := none } := by
   have : lowerAscii c.method = c.method := by
     simp only [butcherNames, List.mem_cons, List.not_mem_nil, or_false] at hm
     rcases hm with h | h | h | h <;> rw [h] <;> decide
@@ -124,11 +128,68 @@ theorem butcher_names (m : String) : (butcher m).isSome ↔ m ∈ butcherNames :
     simp only [List.mem_cons, List.not_mem_nil, or_false] at h
     rcases h with h | h | h | h <;> subst h <;> rfl
 
+/-- operations whose reply reads the bound orbit -/
+def readsBinding : Op → Bool
+  | .stepBound _ => true
+  | .readOrbit => true
+  | _ => false
+
+/-- every other reply is independent of what is bound -/
+theorem out_independent_of_binding (c : Cfg) (b : Option (String × List ℝ)) (op : Op) (h : readsBinding op = false) :
+    ({ c with bound := b } : Cfg).out op = c.out op := by
+  cases op <;> simp_all [Cfg.out, readsBinding, field_def]
+
 /-- a continuation from a returned orbit (`orb.propagate(T1).propagate(T2)`, a point of `iter()` propagated again) makes the
-same steps as the original propagator: method, step bound, tolerance and bodies all survive `copy()` -/
-theorem copy_then_call (c : Cfg) (hm : c.method ∈ butcherNames) (op : Op) :
+same steps as the original propagator: method, step bound, tolerance, bodies and frame all survive `copy()` -/
+theorem copy_then_call (c : Cfg) (hm : c.method ∈ butcherNames) (op : Op) (h : readsBinding op = false) :
     (runOps c [.copy, op]).getLast? = (runOps c [op]).getLast? := by
-  simp [runOps, copy_keeps_settings c hm]
+  simp [runOps, copy_keeps_settings c hm, out_independent_of_binding c none op h]
+
+/-! ### the `frame` attribute and the bound orbit -/
+
+/-- **binding stores the view of the caller's orbit in the CURRENT frame**, under that frame's name — whatever the frame was when
+the object was built or last used -/
+theorem bind_uses_current_frame (c : Cfg) (ops : List Op) (views : List (String × List ℝ)) (y : List ℝ)
+    (hv : viewIn (c.after ops).frame views = some y) :
+    (c.after (ops ++ [.bind views])).bound = some ((c.after ops).frame, y) := by
+  rw [after_append]
+  show ((c.after ops).next (.bind views)).bound = _
+  simp [Cfg.next, hv]
+
+/-- **a call through the `Orbit` API (`Orbit.propagate` / `Orbit.iter`: bind, then integrate from the bound orbit) steps from the
+caller's orbit as seen in the CURRENT frame, with the CURRENT method, step bound, tolerance and bodies** — after any history, and
+whatever orbit (of whatever satellite, in whatever frame) the object was bound to before: nothing of an earlier binding survives -/
+theorem orbit_call_steps_from_current_view (c : Cfg) (ops : List Op) (views : List (String × List ℝ)) (y : List ℝ)
+    (hv : viewIn (c.after ops).frame views = some y) (tb : Tableau) (hm : butcher (c.after ops).method = some tb) (h : ℝ) :
+    (runOps c (ops ++ [.bind views, .stepBound h])).getLast? =
+      some (.stepped (makeStep (c.after ops).field tb (c.after ops).step (c.after ops).tol 0 y maxIter h)) := by
+  rw [runOps_append]
+  simp [runOps, Cfg.out, Cfg.next, hv, hm, field_def]
+
+/-- … hence two objects with different pasts (other satellites bound before, other frames) but the same attribute values now
+answer an `Orbit`-level call alike -/
+theorem orbit_call_independent_of_previous_binding (c : Cfg) (b b' : Option (String × List ℝ))
+    (views : List (String × List ℝ)) (hv : (viewIn c.frame views).isSome) (h : ℝ) :
+    (runOps { c with bound := b } [.bind views, .stepBound h]).getLast?
+      = (runOps { c with bound := b' } [.bind views, .stepBound h]).getLast? := by
+  obtain ⟨y, hy⟩ := Option.isSome_iff_exists.1 hv
+  simp [runOps, Cfg.out, Cfg.next, hy]
+
+/-- `copy()` drops the binding and keeps the frame (no hypothesis on the method) -/
+theorem copy_drops_binding (c : Cfg) : (c.next .copy).bound = none ∧ (c.next .copy).frame = c.frame := by
+  simp [Cfg.next, Cfg.init]
+
+/-- faithful to the code, and the reason why `Orbit.propagate` re-binds at every call: a frame assigned AFTER a binding does not
+touch the stored orbit — a direct `prop._make_step(prop.orbit, …)` still integrates the state converted to the former frame -/
+theorem frame_change_does_not_rebind (c : Cfg) (views : List (String × List ℝ)) (y : List ℝ) (g : String)
+    (hv : viewIn c.frame views = some y) :
+    (runOps c [.bind views, .setFrame g, .readOrbit]).getLast? = some (.orbit (some (c.frame, y))) := by
+  simp [runOps, Cfg.out, Cfg.next, hv]
+
+/-- an unknown frame name is refused at binding (`UnknownFrameError`), and the object keeps its former binding -/
+theorem bind_unknown_frame (c : Cfg) (views : List (String × List ℝ)) (hv : viewIn c.frame views = none) :
+    c.out (.bind views) = .unknownFrame ∧ c.next (.bind views) = c := by
+  simp [Cfg.out, Cfg.next, hv]
 
 /-! ## The padding rule of `_iter` -/
 
@@ -441,6 +502,19 @@ theorem sibling_requests_independent (recv next : Nat) (rs : List Req) (hw : wel
   unfold pointPropId at h
   omega
 
+/-! ## The request as the caller writes it (`NumericalPropagator.iter` / `propagate`, translated from base.py) -/
+
+/-- **a relative `stop` (a timedelta) is counted from the START of the request**, not from the epoch of the orbit: a request
+`iter(start=s, stop=Δ)` covers `[s, s + Δ]` -/
+theorem relative_stop_counts_from_start (epoch start delta : Int) : relStop epoch start delta = start + delta := by
+  simp [relStop]
+
+/-- **a relative target of `propagate` is counted from the epoch of the orbit** -/
+theorem relative_target_counts_from_epoch (epoch delta : Int) : relTarget epoch delta = epoch + delta := by
+  simp [relTarget]
+
+example : relStop 0 120000000 300000000 = 420000000 := by decide
+
 /-! ## Non-vacuity -/
 
 /-- three points, their propagators are objects 5, 6, 7, the receiver is object 2 -/
@@ -456,10 +530,28 @@ example : runReqs (fun _ => 7) (fun _ => none) [.create 0, .propagate 1, .consum
 /-- Euler, then `prop.method = "rk4"`, then a step: an RK4 step -/
 example (c : Cfg) (y : List ℝ) (h : ℝ) :
     (runOps c [.makeStep y h, .setMethod "rk4", .makeStep y h]).getLast? =
-      some (.stepped (some (h, rkOnce (fun _ y => accel c.bodies y) butcher_rk4 0 y h))) := by
+      some (.stepped (some (h, rkOnce c.field butcher_rk4 0 y h))) := by
   have := current_method_selects_fixed_step c [.makeStep y h] "rk4" butcher_rk4 rfl rfl y h
   simpa [Cfg.after, Cfg.next] using this
 example : (Cfg.init 60 [] "RK4" 0.001).method = "rk4" := by decide
+/-- an orbit given in EME2000 and TOD coordinates, an object whose frame was switched to TOD after it had been bound to ANOTHER
+satellite in EME2000: the `Orbit`-level call integrates the TOD view of the caller's orbit (hypotheses of
+`orbit_call_steps_from_current_view` with `ops = [bind other, setFrame "TOD"]`) -/
+example (y yt other : List ℝ) (h : ℝ) :
+    (runOps (Cfg.init 60 [] "rk4" 0.001) ([.bind [("EME2000", other)], .setFrame "TOD"]
+        ++ [.bind [("EME2000", y), ("TOD", yt)], .stepBound h])).getLast? =
+      some (.stepped (makeStep (Cfg.init 60 [] "rk4" 0.001).field butcher_rk4 60 0.001 0 yt maxIter h)) := by
+  have := orbit_call_steps_from_current_view (Cfg.init 60 [] "rk4" 0.001) [.bind [("EME2000", other)], .setFrame "TOD"]
+    [("EME2000", y), ("TOD", yt)] yt (by simp [Cfg.after, Cfg.next, Cfg.init, viewIn]) butcher_rk4
+    (by simp [Cfg.after, Cfg.next, Cfg.init, viewIn]; rfl) h
+  simpa [Cfg.after, Cfg.next, Cfg.init, viewIn, field_def] using this
+/-- the stale stored orbit of a direct use: bound in EME2000, frame set to TOD, `prop.orbit` still the EME2000 state -/
+example (y : List ℝ) : (runOps (Cfg.init 60 [] "rk4" 0.001) [.bind [("EME2000", y)], .setFrame "TOD", .readOrbit]).getLast?
+    = some (.orbit (some ("EME2000", y))) :=
+  frame_change_does_not_rebind _ _ y "TOD" (by simp [Cfg.init, viewIn])
+example (y : List ℝ) : (Cfg.init 60 [] "rk4" 0.001 "NOPE").out (.bind [("EME2000", y)]) = .unknownFrame :=
+  (bind_unknown_frame _ _ (by simp [Cfg.init, viewIn])).1
+example : readsBinding (.makeStep [] 0) = false ∧ readsBinding .readButcher = false := by decide
 example : "rkf54" ∈ butcherNames := by decide
 /-- `iter(stop=90 s, step=15 s)` with a 60 s propagator: 8 points are tabulated (7 steps), not 3 -/
 example : iterTab 0 0 90000000 false true false (List.replicate 9 60000000) =
